@@ -8,6 +8,7 @@ CFG = {"read": False, "nonnode": True, "extras": True}
 def configs(tier):
     out = []
     new = {"node": ("node",), "anynode": ("anynode",), "symlink": ("symlink",)}
+    out.append(dict(kind="baresym", n=4, cfg=dict(CFG, extras=False), hidden=False, d=0, assertions=0, judge="c02"))
     out.append(dict(kind="pctnode", n=3, cfg=dict(CFG, new=("pctnode",)), hidden=False, d=0, assertions=0, judge="c02"))
     for kind in ("mixin", "light", "node", "anynode", "symlink"):
         cfg = dict(CFG)
